@@ -193,6 +193,17 @@ def _v2000_props(rec, per_line):
                     rest.append(pl)
                 j += 1
             out.extend(rest)
+            # isotopes also as mass difference in the atom block (both forms at once is legal; CDK writes files like that)
+            from chython.periodictable import Element
+            for n, iso in props['ISO'].items():
+                k = len(out) - len(rest) - nb - na + n - 1
+                a = out[k]
+                try:
+                    delta = iso - Element.from_symbol(a[31:34].strip())().mdl_isotope
+                except Exception:
+                    continue
+                if -3 <= delta <= 4 and delta != 0:
+                    out[k] = a[:34] + f'{delta:2d}' + a[36:]
             for key in ('CHG', 'ISO', 'RAD'):
                 items = sorted(props[key].items())
                 for c in range(0, len(items), per_line):
@@ -255,6 +266,25 @@ def apply_foreign(fmt, text, extents, spec):
             pos = b if fmt in ('sdf', 'esdf') else new_ext[k + 1][0]
             text = text[:pos] + ins + text[pos:]
             new_ext = [(x, y) if y <= pos else (x + len(ins), y + len(ins)) for x, y in new_ext]
+    if kind == 'rireg' and fmt in ('rdf', 'erdf'):
+        # delimiter lines with registry numbers: `$RFMT $RIREG 12`, `$MFMT $MIREG 7` (RDfile specification)
+        import re as _re
+        cnt = [0]
+
+        def _reg(m):
+            cnt[0] += 1
+            return m.group(1) + (' $RIREG %d' % cnt[0] if m.group(1) == '$RFMT' else ' $MIREG %d' % cnt[0]) + '\n'
+        pieces2, ne, pos2, last2 = [], [], 0, 0
+        for (a, b) in new_ext:
+            pieces2.append(text[last2:a])
+            pos2 += a - last2
+            rec = _re.sub(r'^(\$[RM]FMT)\n', _reg, text[a:b], count=1, flags=_re.M)
+            pieces2.append(rec)
+            ne.append((pos2, pos2 + len(rec)))
+            pos2 += len(rec)
+            last2 = b
+        pieces2.append(text[last2:])
+        text, new_ext = ''.join(pieces2), ne
     if kind == 'crlf':
         # every line feed becomes CR LF: offsets move by the number of line feeds in front of them
         import bisect
@@ -792,7 +822,13 @@ def _execute(trace, probes, scratch):
         if rp.get('indexed'):
             if faulty or fmt == 'mrv':
                 continue
-            _indexed_phase(fmt, data, expected, rp, probes, scratch)
+            try:
+                _indexed_phase(fmt, data, expected, rp, probes, scratch)
+            except Violation:
+                raise
+            except Exception as e:
+                tb = traceback.extract_tb(e.__traceback__)
+                raise Violation(f'exception-escaped:{type(e).__name__}', f'{fmt} random access: {e!r} in {tb[-1].name if tb else "?"}')
             continue
         disk = SimFile(data)
         chunk = rp.get('chunk') or 8192
@@ -1115,9 +1151,9 @@ def generate(seed):
     trace['write'] = wp
     mode = cfg['mode']
     if mode in ('clean', 'indexed') and s.random() < 0.3:
-        k = s.choice(['v3000wrap', 'v3000wrap', 'no_final_delimiter', 'crlf', 'empty_record', 'empty_record', 'v2000props', 'v2000props'])
+        k = s.choice(['v3000wrap', 'v3000wrap', 'no_final_delimiter', 'crlf', 'empty_record', 'empty_record', 'v2000props', 'v2000props', 'rireg'])
         if (k == 'v3000wrap' and fmt in ('esdf', 'erdf')) or (k == 'empty_record' and fmt != 'mrv') or \
-                (k == 'v2000props' and fmt in ('sdf', 'rdf')) or \
+                (k == 'v2000props' and fmt in ('sdf', 'rdf')) or (k == 'rireg' and fmt in ('rdf', 'erdf')) or \
                 (k == 'no_final_delimiter' and fmt in ('sdf', 'esdf') and mode == 'clean') or \
                 (k == 'crlf' and fmt != 'mrv'):
             trace['foreign'] = {'kind': k, 'width': s.choice([20, 30, 40, 60, 78]), 'blank_first': s.random() < 0.5,
